@@ -460,15 +460,20 @@ def _run(ctx, base):
             gated_kv = False
             if self_contained:
                 stack = []
+                prev = ""
                 for e in root.entries:
                     if isinstance(e, Inc):
                         if stack and stack[-1] in ("METADATA", "VALIDATION", "VALUES", "CONNECTIONOPTIONS") and \
                                 "include-inside-key-value-block-no-expand" in ctx.gated:
                             gated_kv = True  # listed finding: there the directive is read as a key-value pair (or refused)
+                        elif stack and stack[-1] == "QUERYMAP" and prev.upper().startswith("STYLE") and "querymap-style-keyword" in ctx.gated:
+                            gated_kv = True  # listed finding: QUERYMAP STYLE <word> followed by any keyword (here: INCLUDE) does not parse
                         elif not stack or stack[-1] in ("PATTERN", "POINTS", "PROJECTION"):
                             self_contained = False  # a directive inside PATTERN / POINTS / PROJECTION is not Mapfile data
                     else:
                         w = e.strip()
+                        if w:
+                            prev = w
                         if w.upper() == "END":
                             if stack:
                                 stack.pop()
@@ -477,7 +482,7 @@ def _run(ctx, base):
             try:
                 d = mappyfile.open(root_path, expand_includes=False) if self_contained and not gated_kv else None
                 if gated_kv and self_contained:
-                    res.count("no_expand_gated:include-inside-key-value-block")
+                    res.count("no_expand_gated:listed-finding(include inside a key-value block / behind QUERYMAP STYLE <word>)")
                 elif d is None:
                     res.count("no_expand_root_not_self_contained")
             except Exception as ex:
